@@ -317,6 +317,9 @@ class USBStreamOutEndpoint(Elaboratable):
         # Stores whether we're in the middle of a transfer.
         transfer_active = Signal()
 
+        # Stores whether the packet we're receiving has filled a whole max-size packet.
+        packet_full = Signal()
+
         #
         # Receiver logic.
         #
@@ -405,9 +408,9 @@ class USBStreamOutEndpoint(Elaboratable):
         with m.If(fifo.write_en):
             m.d.usb += rx_cnt.eq(rx_cnt + 1)
 
-            # Set the transfer active flag depending on whether this is a full packet.
+            # Note whether this is a full packet.
             with m.If(rx_last):
-                m.d.usb += transfer_active.eq(full_packet)
+                m.d.usb += packet_full.eq(full_packet)
 
         # We'll set the overflow flag if we're receiving data we don't have room for. It has to outlast the
         # handshake we issue for the packet (an inter-packet delay after the packet is committed or discarded);
@@ -421,9 +424,20 @@ class USBStreamOutEndpoint(Elaboratable):
         with m.If(fifo.write_commit | fifo.write_discard):
             m.d.usb += rx_cnt.eq(0)
 
-        # We'll toggle our DATA PID each time we issue an ACK to the host [USB 2.0: 8.6.2].
-        with m.If(data_response_requested & data_accepted):
-            m.d.usb += expected_data_toggle.eq(~expected_data_toggle)
+        # A discarded packet doesn't count as a full one.
+        with m.If(fifo.write_discard):
+            m.d.usb += packet_full.eq(0)
+
+        with m.If(data_response_requested):
+            m.d.usb += packet_full.eq(0)
+
+            # We'll toggle our DATA PID each time we issue an ACK to the host [USB 2.0: 8.6.2]; and a transfer
+            # stays active exactly if the packet we've just accepted was a full one (a ZLP or a discarded packet is not).
+            with m.If(data_accepted):
+                m.d.usb += [
+                    expected_data_toggle .eq(~expected_data_toggle),
+                    transfer_active      .eq(packet_full | (fifo.write_en & rx_last & full_packet)),
+                ]
 
         # If there has been a ClearFeature(ENDPOINT_HALT) request address to this endpoint...
         clear_endpoint_halt = \
